@@ -243,6 +243,12 @@ def run(ctx):
                             okc = any(x.k == "field" for x in oo.walk()) or any(x.k == "arg" for x in oo.walk())
                     ctx.ob("R3", "compile-path", ok and okc, "Pattern.regex = %s; must be glob_to_regex(pattern) compiled by parse_bre with the chosen options (None = never matches)" % o.fmt()[:300], fn=pn, where=prim.site(pn, b, s), how="provenance slice through the closure")
 
+        # what is translated is the pattern as given (no trimming, folding or other pre-pass on the text)
+        for b, t in pn.calls():
+            if t.callee == G + "glob_to_regex":
+                ao = prim.origin_of_operand(pn, t.args[0]).strip()
+                ctx.ob("R3", "translates-the-pattern-as-given", ao.k == "arg" and ao.a.get("idx") == 1, "glob_to_regex is given %s; must be Pattern::new's own pattern argument unchanged" % ao.fmt(), fn=pn, where=prim.site(pn, b), how="provenance slice")
+
     # ---- R3 whole-string API --------------------------------------------------------------------------------
     n_match = 0
     for f, b, t in prog.all_calls():
@@ -326,6 +332,25 @@ def run(ctx):
     gf = ctx.fn("R4", G + "glob_to_regex")
     if gf is not None:
         g = C.G(prim.event_graph(gf, glob_role(gf), branch_role=char_brole))
+        # the characters scanned are those of the function's own argument — or, after a bracket expression, of the tail that
+        # the bracket parser hands back; never of a rewritten copy of the pattern
+        n_it = 0
+        for l_, ds_ in sorted(prim.local_defs(gf).items()):
+            if not str(gf.local_ty(l_)).startswith(("std::str::Chars", "core::str::Chars")) or gf.local_name(l_) is None:
+                continue
+            for d_ in ds_:
+                if d_[1] == "partial":
+                    continue
+                n_it += 1
+                o_ = prim._origin_of_def(gf, d_, 10, {l_}).strip()
+                ok_ = o_.k == "call" and o_.a["name"] == "chars" and len(o_.kids) == 1
+                src_ = prim.expand_single_def_vars(gf, o_.kids[0]).strip() if ok_ else None
+                if ok_:
+                    from_arg = src_.k == "arg" and src_.a.get("idx") == 1
+                    from_tail = any(c.a["callee"] == G + "extract_bracket_expr" for c in src_.call_nodes()) and all(c.a["callee"] == G + "extract_bracket_expr" or c.a["name"] in ("as_str", "branch") for c in src_.call_nodes())
+                    ok_ = from_arg or from_tail
+                ctx.ob("R4", "scans-the-pattern-itself", ok_, "the character iterator of glob_to_regex is %s; must be pattern.chars() of the argument itself, or the unscanned tail returned by extract_bracket_expr" % o_.fmt()[:200], fn=gf, where=prim.site(gf, d_[0]), how="provenance slice")
+        ctx.floor("R4", "definitions of the scanned character iterator", n_it, 1)
         heads = [n for n in g.out if C.base(n).startswith("ch:")]
         ctx.ob("R4", "char-dispatch", len(heads) == 1, "glob_to_regex must dispatch on the pattern character at one place; found %s" % heads, fn=gf, how="event graph")
         if len(heads) == 1:
